@@ -90,9 +90,17 @@ type Env struct {
 	dPG          *scheduling.PodGroup
 	jobDelivered bool
 	lastCache    Status
+	armedQ       []armed // timers armed in this case and not yet reached by the clock, oldest first
 }
 
 func (e *Env) nextRV() string { e.rv++; return strconv.Itoa(e.rv + 1000) }
+
+// FakeClock: the harness runs under testing/synctest; every history step then advances the
+// fake clock by one tick, and WaitIdle waits until every other goroutine is blocked.
+var (
+	FakeClock bool
+	WaitIdle  = func() {}
+)
 
 var theEnv *Env
 
@@ -316,6 +324,11 @@ func NewJob(ns string) *batch.Job {
 	}
 }
 
+const (
+	UserLabel      = "example.com/app"
+	UserAnnotation = "example.com/mem"
+)
+
 // Template is a one-container pod template with the given cpu request (milli).
 func Template(cpuMilli int64, memMi int64, pc string) v1.PodTemplateSpec {
 	req := v1.ResourceList{}
@@ -325,7 +338,17 @@ func Template(cpuMilli int64, memMi int64, pc string) v1.PodTemplateSpec {
 	if memMi > 0 {
 		req[v1.ResourceMemory] = *resource.NewQuantity(memMi<<20, resource.BinarySI)
 	}
+	// user labels / annotations on the template (derived from the requests, so that the token
+	// format needs no extra field): createJobPod must copy them per pod, never share the maps
+	var lbl, ann map[string]string
+	if cpuMilli > 0 {
+		lbl = map[string]string{UserLabel: fmt.Sprintf("a%d", cpuMilli)}
+	}
+	if memMi > 0 {
+		ann = map[string]string{UserAnnotation: fmt.Sprintf("m%d", memMi)}
+	}
 	return v1.PodTemplateSpec{
+		ObjectMeta: metav1.ObjectMeta{Labels: lbl, Annotations: ann},
 		Spec: v1.PodSpec{
 			PriorityClassName: pc,
 			Containers:        []v1.Container{{Name: "c", Image: "busybox", Resources: v1.ResourceRequirements{Requests: req}}},
@@ -572,6 +595,7 @@ func (e *Env) dropIndexers(ns string) {
 // Restart: the controller process restarts -- empty job cache, empty listers; nothing delivered yet.
 func (e *Env) Restart(ns string) {
 	e.Ctl.VerifResetCache()
+	e.Ctl.VerifDropDelayedActions(jobKey(ns))
 	e.dropIndexers(ns)
 	e.dJob, e.dPG, e.jobDelivered, e.prevJob = nil, nil, false, nil
 	e.dPods = map[string]*v1.Pod{}
@@ -679,6 +703,8 @@ func (e *Env) Cleanup(ns string) {
 	_ = e.VC.Tracker().Delete(JobGVR, ns, JobName)
 	e.dropIndexers(ns)
 	e.Ctl.VerifResetCache()
+	e.Ctl.VerifDropDelayedActions(jobKey(ns))
+	e.armedQ = nil
 	e.dJob, e.dPG, e.jobDelivered, e.prevJob = nil, nil, false, nil
 	e.dPods = map[string]*v1.Pod{}
 	resetJobUID()
